@@ -28,4 +28,4 @@ m['what_i_ran']='tools/seedeval.sh %s %s: demo without/with the change in a scra
 json.dump(m,open(d+'meta.json','w'),indent=1)
 print(name,'demo_ok_without=',m['confirmed_demo_passes_without_change'],'demo_fails_with=',m['confirmed_demo_fails_with_change'],'pinned_ok=',m['pinned_tests_pass_with_change'],'check_caught=',m['check_caught'],'|',m['check_reported'])
 PY
-find /verif/replays -type f -newer /tmp/.seedstart.$$ -delete; rm -f /tmp/.seedstart.$$
+find /verif/replays -type f -name '*-seed1-*' -newer /tmp/.seedstart.$$ -delete; rm -f /tmp/.seedstart.$$
